@@ -434,7 +434,7 @@ def run(ctx):
     ctx.cov["rule"] = ("TLC enumerates (base in 20 skeletons) x (position in file/block/nested/macro) x (fragment); quick: the "
                        "hand-chosen witnesses of every named rule (Violate_r, checked by TLC to violate exactly r) and the curated "
                        "valid twins; thorough: additionally every fragment of the universe (Compose). Each is rendered and compiled. "
-                       "non-trivial = anything but the 20 unmutated bases")
+                       "non-trivial = anything but the 32 unmutated bases")
 
 
 def why_unreached(s):
